@@ -44,5 +44,23 @@ func (g *Graveyard) GetMaxIndexTxn(tx ReadTxn, prefix string, _ *acl.EnterpriseM
 			lindex = s.Index
 		}
 	}
+
+	// A recursive delete leaves a single tombstone keyed by the prefix it was
+	// given, which stands for every key below it. A tombstone whose key is a
+	// proper prefix of the requested prefix therefore counts as well, or
+	// listing "a/" after deleting the tree "a" would report a changed result
+	// under an unchanged index.
+	for i := len(prefix) - 1; i > 0; i-- {
+		q.Value = prefix[:i]
+		stone, err := tx.First(tableTombstones, indexID, q)
+		if err != nil {
+			return 0, fmt.Errorf("failed querying tombstones: %s", err)
+		}
+		if stone != nil {
+			if s := stone.(*Tombstone); s.Index > lindex {
+				lindex = s.Index
+			}
+		}
+	}
 	return lindex, nil
 }
